@@ -11,7 +11,7 @@ from . import cfgreal as R
 from . import tlc
 
 
-GEN_ARG = {"K": "p", "K2": "q", "K2Old": "q", "K2Older": "q", "T": "r", "G": "p"}
+GEN_ARG = {"K": "p", "K2": "q", "K2Old": "q", "K2Older": "q", "T": "r", "G": "p", "GF": "p"}
 
 
 def observe(graph, rng=None, seal_root=True):
